@@ -65,11 +65,14 @@ type Config struct {
 }
 
 func DefaultDialer() *uacp.Dialer {
+	// every dialer gets its own copy of the default ACK since
+	// options like MaxChunkCount modify it.
+	ack := *uacp.DefaultClientACK
 	return &uacp.Dialer{
 		Dialer: &net.Dialer{
 			Timeout: DefaultDialTimeout,
 		},
-		ClientACK: uacp.DefaultClientACK,
+		ClientACK: &ack,
 	}
 }
 
